@@ -46,6 +46,13 @@ pub fn templates() -> Vec<Template> {
         })
         .from_spec(SpecId::LONDON),
         tpl("sender-has-code(c0)", contract(0), &["c0"], |n| transfer(contract(0), n, eoa(7), 1)),
+        // rejected before any state is read: the same value on every path and at every placement
+        tpl("tip>maxfee(e3)", eoa(3), &["e3"], |n| with_1559(transfer(eoa(3), n, eoa(7), 1), 30, 50)).from_spec(SpecId::LONDON),
+        tpl("gaslimit>block(e0)", eoa(0), &["e0"], |n| {
+            let mut t = transfer(eoa(0), n, eoa(7), 1);
+            t.gas_limit = u64::MAX / 2;
+            t
+        }),
         tpl("fund(e0>e4)", eoa(0), &["e0", "e4"], |n| transfer(eoa(0), n, eoa(4), 2 * ETHER)),
         tpl("dep(e4>e7)", eoa(4), &["e4"], |n| transfer(eoa(4), n, eoa(7), ETHER)),
         tpl("drain(e2>e7)", eoa(2), &["e2"], |n| transfer(eoa(2), n, eoa(7), 3 * ETHER - 21_000 * 10)),
@@ -136,6 +143,26 @@ pub fn jobs(tier: Tier) -> Vec<Job> {
                 v.push(validity_job(&case, &RunCfg::sequential(), COARSE, 0));
             }
         }
+    }
+    // A verdict that a *stale* attempt computed must never become the block's outcome (seeded
+    // change C03b: the sequential replay trusted the error recorded by an attempt that started
+    // before its funding predecessor was visible and finished exactly at the commit head). The
+    // window is the one of finding F2: attempt granularity, four to five deviations.
+    for pair in [["fund(e0>e4)", "dep(e4>e7)"], ["valid(e3>e7)", "dup-nonce(e3)"]] {
+        let seq: Vec<usize> = pair.iter().map(|l| templates.iter().position(|t| t.label == *l).unwrap()).collect();
+        let case = build_case("c03", SpecId::CANCUN, &db, &templates, &seq).unwrap();
+        let mut j = validity_job(&case, &RunCfg::parallel(2), FOCUS_ATTEMPT, if tier == Tier::Quick { 4 } else { 5 });
+        j.split = true;
+        v.push(j);
+    }
+    {
+        // three transactions: the third parks the other worker
+        let labels = ["fund(e0>e4)", "dep(e4>e7)", "valid(e3>e7)"];
+        let seq: Vec<usize> = labels.iter().map(|l| templates.iter().position(|t| t.label == *l).unwrap()).collect();
+        let case = build_case("c03", SpecId::CANCUN, &db, &templates, &seq).unwrap();
+        let mut j = validity_job(&case, &RunCfg::parallel(2), FOCUS_ATTEMPT, if tier == Tier::Quick { 3 } else { 5 });
+        j.split = true;
+        v.push(j);
     }
     if tier == Tier::Thorough {
         // fine granularity on the dependent-validity pairs
